@@ -1691,3 +1691,61 @@ Proof.
   apply (same_lock_twice_never_handed cfg (fst (step cfg s t c)) k l (reach_step' _ _ _ _ Hr W) D0 D1 t).
   rewrite thr_step. rewrite step_snd in E. eapply ret_task_in_view; eauto.
 Qed.
+
+(* ------------------------------------------------------------------------------------------ *)
+(* AtomicValue::max (load + CAS loop): the variable never decreases and is at least every value
+   a completed max() call was given *)
+Definition mx_ok (ts : tstate) : Prop :=
+  match tpc ts with C_maxCas _ x old new => new = N.max x old | _ => True end.
+Definition mx_inv (s : sys) : Prop := forall t, mx_ok (thr s t).
+
+Lemma mx_inv_exec : forall cfg s t c, mx_inv s -> mx_inv (fst (exec cfg s t c)).
+Proof.
+  intros cfg s t c I.
+  exec_leaves; try assumption.
+  all: intros t'; destruct (Nat.eq_dec t' t) as [->|Hn];
+       [ unfold mx_ok; thr_simpl; try exact Logic.I; try reflexivity | cbn; rewrite ?upd_other by auto; apply I ].
+Qed.
+
+Lemma mx_inv_reach : forall cfg s, reach cfg s -> mx_inv s.
+Proof.
+  intros cfg. apply reach_ind_exec.
+  - intros t. exact I.
+  - intros s h H. exact H.
+  - intros. now apply mx_inv_exec.
+Qed.
+
+Lemma exec_mxv_mono : forall cfg s t c x, mx_inv s -> (mxv s x <= mxv (fst (exec cfg s t c)) x)%N.
+Proof.
+  intros cfg s t c x I. pose proof (I t) as K. unfold mx_ok in K.
+  exec_leaves; try (cbn; lia).
+  apply N.eqb_eq in Heqb0. subst.
+  cbn. destruct (Nat.eq_dec x c0) as [->|Hx]. rewrite upd_same. lia. rewrite upd_other by auto. lia.
+Qed.
+
+Lemma exec_max_ret : forall cfg s t c x v r, mx_inv s -> top_inv s ->
+  e_ret (snd (exec cfg s t c)) = Some (OMax x v, r) -> (v <= mxv (fst (exec cfg s t c)) x)%N.
+Proof.
+  intros cfg s t c x v r I T. pose proof (I t) as K. unfold mx_ok in K. pose proof (T t) as K2.
+  exec_leaves; cbn [e_ret ev ev_ret ev_take ev_push]; intros E; try discriminate.
+  all: try match goal with H : tpc _ = _ |- _ => rewrite H in K, K2 end; cbn [pc_op_ok] in K2.
+  all: try (repeat match goal with
+                   | K0 : _ \/ _ |- _ => destruct K0
+                   | K0 : exists _, _ |- _ => destruct K0
+                   end; congruence).
+  all: inversion E; subst.
+  all: try congruence.
+  all: match goal with H : top _ = OMax _ _, H2 : top _ = OMax _ _ |- _ => rewrite H in H2; inversion H2; subst end.
+  all: cbn; rewrite upd_same; lia.
+Qed.
+
+Lemma max_is_max : forall cfg s, reach cfg s ->
+  forall e x v r, In e (hist s) -> e_ret e = Some (OMax x v, r) -> (v <= mxv s x)%N.
+Proof.
+  intros cfg s Hr. induction Hr; intros e x v r Hin He.
+  - contradiction.
+  - rewrite hist_step in Hin. rewrite step_fst. cbn [mxv set_hist].
+    destruct Hin as [<-|Hin].
+    + eapply exec_max_ret; eauto using mx_inv_reach, top_inv_reach.
+    + eapply N.le_trans. eapply IHHr; eauto. apply exec_mxv_mono. eapply mx_inv_reach; eauto.
+Qed.
